@@ -170,7 +170,10 @@ def run_case(scn, ctx):
         rec_present = sorted(f for f in files if f in recorded)
         if rec_present:
             victim = rec_present[scn["alter"] % len(rec_present)]
-            w.put(victim, w.files[victim] + b"#")
+            changed = w.files[victim] + b"#"
+            if changed == firsts.get(victim):
+                changed += b"#"  # (appending to an emptied file must not restore the bytes that were first recorded)
+            w.put(victim, changed)
             res = w.verify(top, flags=["-pl", pl])
             require(res.exit_code == 11, "pl-detects", "altered %r but verify -pl: %s" % (rel(victim), res.brief()), res)
             feats.add("pl_altered")
